@@ -28,7 +28,7 @@ func init() {
 		Run: run,
 		Floors: func(t string) map[string]int64 {
 			m := map[string]int64{"pos.perturbed": 5000, "pos.permuted": 2000, "pos.ring_rotated": 1000, "neg.type": 5000, "neg.member_inserted": 1000, "neg.member_deleted": 1000, "neg.vertex_inserted": 1000,
-				"neg.vertex_deleted": 1000, "neg.reversed": 300, "neg.displaced": 2000, "unrelated": 1000, "base.many_members_60_to_140": 100, "base.with_duplicate_member": 300, "neg.ring_moved_to_sibling_polygon": 300, "base.coordinate_spacing_comparable_to_tol": 300, "base.ring_with_tied_leftmost_vertices": 500, "base.with_unclosed_ring": 500, "neg.closing_vertex_displaced": 500}
+				"neg.vertex_deleted": 1000, "neg.reversed": 300, "neg.displaced": 2000, "unrelated": 1000, "base.many_members_60_to_140": 100, "base.with_duplicate_member": 300, "neg.ring_moved_to_sibling_polygon": 300, "base.coordinate_spacing_comparable_to_tol": 300, "base.ring_with_tied_leftmost_vertices": 500, "base.with_unclosed_ring": 500, "neg.closing_vertex_displaced": 500, "pos.perturbed_closing_vertex_on_its_own": 2000, "base.ring_through_one_vertex_twice": 300}
 			for _, n := range typeNames {
 				m["base."+n] = 100
 			}
@@ -46,6 +46,8 @@ type builder struct {
 	many bool // top-level multi-geometries get 60..140 members (sizes on both sides of 64 and 128)
 	unclosed, sawUnclosed bool // half of the rings are spelled without the repeated first vertex
 	tiedAnchor, sawTie bool // rings may have several vertices with the smallest X (axis-parallel left edges)
+	revisit, sawRevisit bool // closed rings may visit one of their vertices twice
+	freeClosing bool // perturb leaves the closing vertex of a ring on its own
 	off  float64 // added to every coordinate: 1e15 .. 9e15 tol puts the float64 spacing at 0.1 .. 1 tol
 }
 
@@ -141,6 +143,25 @@ func (b *builder) ring() geom.Path {
 			if b.unclosed && b.r.Chance(0.5) {
 				b.sawUnclosed = true
 				return geom.Path(p) // the spelling without the repeated first vertex
+			}
+			if b.revisit && b.r.Chance(0.6) {
+				// the ring passes through one of its vertices twice: a consecutive duplicate or a
+				// pinch; half of the time it is the lowest of the leftmost vertices
+				j := b.r.Intn(len(p))
+				if b.r.Bool() {
+					for k, q := range p {
+						if q.X < p[j].X || q.X == p[j].X && q.Y < p[j].Y {
+							j = k
+						}
+					}
+				}
+				at := j + 1
+				if b.r.Bool() {
+					at = (j + 2 + b.r.Intn(len(p)-2)) % (len(p) + 1)
+				}
+				q := append(append(append([]geom.Point{}, p[:at]...), p[j]), p[at:]...)
+				p = q
+				b.sawRevisit = true
 			}
 			return append(geom.Path(p), p[0])
 		}
@@ -268,7 +289,7 @@ func (b *builder) perturb(g geom.Geom) geom.Geom {
 			p[i].X = shift(p[i].X, b.r.Range(-0.9, 0.9)*b.tol, b.tol)
 			p[i].Y = shift(p[i].Y, b.r.Range(-0.9, 0.9)*b.tol, b.tol)
 		}
-		if ring && len(p) > 1 {
+		if ring && len(p) > 1 && !b.freeClosing {
 			p[len(p)-1] = p[0]
 		}
 		return p
@@ -555,6 +576,7 @@ func run(c *core.Ctx, idx int) {
 	b := &builder{r: r, tol: tol}
 	kind := r.Intn(8)
 	b.tiedAnchor = r.Chance(0.3)
+	b.revisit = r.Chance(0.25)
 	b.unclosed = r.Chance(0.3)
 	if r.Chance(0.1) {
 		// far from the origin relative to the tolerance: the float64 spacing of the coordinates is
@@ -576,6 +598,9 @@ func run(c *core.Ctx, idx int) {
 			g = d
 			c.Count("base.with_duplicate_member")
 		}
+	}
+	if b.sawRevisit {
+		c.Count("base.ring_through_one_vertex_twice")
 	}
 	if b.sawTie {
 		c.Count("base.ring_with_tied_leftmost_vertices")
@@ -613,6 +638,15 @@ func run(c *core.Ctx, idx int) {
 	for k := 0; k < 4; k++ {
 		c.Count("pos.perturbed")
 		judge(b.perturb(g), true, "perturbed")
+	}
+	// every coordinate perturbed on its own - the closing vertex of a ring too, which then no
+	// longer repeats the first vertex bit for bit (and may become the ring's leftmost-lowest one)
+	for k := 0; k < 2; k++ {
+		c.Count("pos.perturbed_closing_vertex_on_its_own")
+		b.freeClosing = true
+		h := b.perturb(g)
+		b.freeClosing = false
+		judge(h, true, "perturbed, closing vertices on their own")
 	}
 	for k := 0; k < 3; k++ {
 		c.Count("pos.permuted")
